@@ -177,7 +177,8 @@ def pre_build(ctx):
 
 
 def run(ctx):
-    core_units.run(ctx, which="C15")
+    import common as _common
+    _common.guarded(ctx, "K/S-units", core_units.run, ctx, which="C15")
     ctx.monitor_rule = ("per optimizer (all 22): scores of the first k steps replaced by NaN / +inf / -inf following masks (all-invalid "
                         "prefixes of every length up to k for each kind, random mixtures; thorough: all 4^4 masks): search() must not "
                         "raise, must produce n_iter rows, best_score must be the best non-NaN score, and every later point must "
@@ -193,7 +194,7 @@ def run(ctx):
         ctx.monitor_runs += 1
         ctx.monitor_nontrivial.add((spec["name"], tuple("x" if m is None else repr(m) for m in script), spec["seed"]))
         monitor(ctx, spec, out)
-    interleaved(ctx)
+    _common.guarded(ctx, "interleaved runs", interleaved, ctx)
 
 
 def run_with_mask(spec, script):
